@@ -3,6 +3,7 @@ package main
 import (
 	"encoding/json"
 	"fmt"
+	"math"
 	"regexp"
 	"strconv"
 	"strings"
@@ -26,8 +27,10 @@ type Abs struct {
 	B     bool   `json:"-"`
 	I     int64  `json:"-"`
 	// "biglist": a list given by description, N members equal to Fill except member At (1-based) = Val
-	N, At     int  `json:"-"`
-	Val, Fill *Abs `json:"-"`
+	N, At     int             `json:"-"`
+	Val, Fill *Abs            `json:"-"`
+	NegZero   bool            `json:"-"` // the float -0.0
+	BigDec    json.RawMessage `json:"-"` // an integer beyond +-2^30: its decimal form as absval wrote it
 }
 
 func (a *Abs) UnmarshalJSON(b []byte) error {
@@ -41,6 +44,8 @@ func (a *Abs) UnmarshalJSON(b []byte) error {
 		N    int             `json:"n"`
 		At   int             `json:"at"`
 		Fill *Abs            `json:"fill"`
+		NZ   bool            `json:"negzero"`
+		Dec  json.RawMessage `json:"dec"`
 	}
 	if err := json.Unmarshal(b, &raw); err != nil {
 		return err
@@ -50,11 +55,32 @@ func (a *Abs) UnmarshalJSON(b []byte) error {
 		a.Val = &Abs{}
 		return json.Unmarshal(raw.V, a.Val)
 	}
-	a.T, a.Q, a.P, a.K, a.S = raw.T, raw.Q, raw.P, raw.K, raw.S
+	a.T, a.Q, a.P, a.K, a.S, a.NegZero = raw.T, raw.Q, raw.P, raw.K, raw.S, raw.NZ
 	switch raw.T {
 	case "bool":
 		return json.Unmarshal(raw.V, &a.B)
 	case "int":
+		if len(raw.V) == 0 && 0 < len(raw.Dec) { // beyond the small integers TLC can hold: absval writes the decimal digits
+			var d struct {
+				Neg    bool  `json:"neg"`
+				Digits []int `json:"digits"`
+				Exp10  int   `json:"exp10"`
+			}
+			if err := json.Unmarshal(raw.Dec, &d); err != nil {
+				return err
+			}
+			for _, x := range d.Digits {
+				a.I = a.I*10 + int64(x)
+			}
+			for i := 0; i < d.Exp10; i++ {
+				a.I *= 10
+			}
+			if d.Neg {
+				a.I = -a.I
+			}
+			a.BigDec = raw.Dec
+			return nil
+		}
 		return json.Unmarshal(raw.V, &a.I)
 	case "str":
 		if len(raw.V) > 0 && raw.V[0] == '"' { // TLC writes an all-printable byte sequence as such; not expected, but be safe
@@ -91,6 +117,9 @@ func ints(s string) []int {
 }
 
 func (a *Abs) float() float64 {
+	if a.NegZero {
+		return math.Copysign(0, -1)
+	}
 	if len(a.Q) < 2 {
 		f, _ := strconv.ParseFloat(a.S, 64)
 		return f
